@@ -24,3 +24,9 @@ Theorem C16_crs_transpose_twice cols A r c : wf cols A = true -> 1 <= c <= cols 
   vals_at c (nth (r - 1) (transpose (length A) (transpose cols A)) []) = vals_at c (nth (r - 1) A []).
 Proof. exact (transpose_twice_entries cols A r c). Qed.
 Print Assumptions C16_crs_transpose_twice.
+
+(* globally nothing is dropped or duplicated: the number of stored elements (the code's ncnt_) is preserved *)
+Theorem C16_crs_transpose_keeps_the_element_count cols A : wf cols A = true ->
+  length (concat (transpose cols A)) = length (concat A).
+Proof. exact (transpose_count cols A). Qed.
+Print Assumptions C16_crs_transpose_keeps_the_element_count.
